@@ -95,8 +95,11 @@ type Config struct {
 	NoArbitraryUser bool     `json:"no_arbitrary_user,omitempty"` // the application's user type does not implement authboss.ArbitraryUser
 	PlainRegValues  bool     `json:"plain_reg_values,omitempty"`  // the application's body reader returns register values that implement UserValuer only (no ArbitraryValuer)
 	WriterWrap      string   `json:"writer_wrap,omitempty"`       // an application middleware right behind LoadClientStateMiddleware wraps the response writer (compression, metrics): "underlying" exposes it through UnderlyingResponseWriter(), "unwrap" through Unwrap() only
-	App2FAHook      bool     `json:"app_2fa_hook,omitempty"`     // the application hooks After(EventTwoFactorAdded) while configuring authboss (before the 2FA Setup calls) and answers the request itself (a "2FA is on now" page)
-	ProviderParams  bool     `json:"provider_params,omitempty"`  // the providers' OAuth2Provider.AdditionalParams is set (access_type=offline), as the sample configuration for Google does
+	App2FAHook      bool     `json:"app_2fa_hook,omitempty"`      // the application hooks After(EventTwoFactorAdded) while configuring authboss (before the 2FA Setup calls) and answers the request itself (a "2FA is on now" page)
+	CustomHasher    bool     `json:"custom_hasher,omitempty"`     // Core.Hasher is the application's own (salted SHA-256, "$ssha256$salt$digest"), not bcrypt
+	StoreZoneH      int      `json:"store_zone_h,omitempty"`      // the storer hands instants back in a fixed zone this many hours off UTC (a database driver's session time zone); 0 = UTC
+	NumericIDs      bool     `json:"numeric_ids,omitempty"`       // with StockDetails: the provider's user-info endpoint sends all-digit ids as bare JSON numbers
+	ProviderParams  bool     `json:"provider_params,omitempty"`   // the providers' OAuth2Provider.AdditionalParams is set (access_type=offline), as the sample configuration for Google does
 	StockDetails    bool     `json:"stock_details,omitempty"`     // providers use the library's own GoogleUserDetails / FacebookUserDetails (the in-process provider answers their user-info endpoints)
 	NoCookieStore   bool     `json:"no_cookie_store,omitempty"`   // Storage.CookieState left nil (documented as needed for remember-me only)
 	Localizer       string   `json:"localizer,omitempty"`         // "untranslated": a Localizer whose catalog has no entry for the request's language (answers "" as its contract says; the library falls back to the default texts)
@@ -296,7 +299,9 @@ func deriveOTP(seed uint64, acct, i int) string {
 // AppKeys are session keys the application itself may set via /set.
 // Two of them merely *contain* the name of a library key ("uid", "twofactor"):
 // a whitelist is a list of exact names.
-var AppKeys = []string{"app_theme", "app_cart", "app_lang", "visitor_uuid", "twofactor_hint"}
+var AppKeys = []string{"app_theme", "app_cart", "app_lang", "visitor_uuid", "twofactor_hint",
+	// namespaced / non-ASCII key names are ordinary session keys too (no comma: the whitelist travels comma-separated)
+	"app:locale", "shop/currency", "sprache_für_ui"}
 
 // ProviderHost is the fake OAuth2 provider's host.
 const ProviderHost = "prov.example"
@@ -313,6 +318,9 @@ func NewWorld(cfg Config) (w *World, err error) {
 	w.Store = NewStore(w.B)
 	w.Store.OneTime = cfg.OneTimeTOTP
 	w.Store.NoArb = cfg.NoArbitraryUser
+	if cfg.StoreZoneH != 0 {
+		w.Store.Zone = time.FixedZone(fmt.Sprintf("UTC%+d", cfg.StoreZoneH), cfg.StoreZoneH*3600)
+	}
 	w.Store.EmailPID = !cfg.Username
 	w.Mail = &Mailbox{B: w.B}
 	w.SMS = &SMSOutbox{B: w.B}
@@ -444,6 +452,9 @@ func NewWorld(cfg Config) (w *World, err error) {
 	}
 	ab.Config.Core.BodyReader = otpAdapter{inner: br, plainReg: cfg.PlainRegValues}
 	ab.Config.Core.Hasher = FaultHasher{Inner: authboss.NewBCryptHasher(bcrypt.MinCost), B: w.B}
+	if cfg.CustomHasher {
+		ab.Config.Core.Hasher = FaultHasher{Inner: SSHA256{}, B: w.B}
+	}
 
 	if len(cfg.Providers) > 0 {
 		ab.Config.Modules.OAuth2Providers = map[string]authboss.OAuth2Provider{}
@@ -550,6 +561,40 @@ func (storeNoRemember) AddRememberToken(struct{})  {}
 func (storeNoRemember) DelRememberTokens(struct{}) {}
 func (storeNoRemember) UseRememberToken(struct{})  {}
 
+// SSHA256 is an application-supplied password hasher (the library documents Core.Hasher as pluggable):
+// "$ssha256$<salt hex>$<sha256(salt || password) hex>". Every byte of the password counts, unlike bcrypt.
+type SSHA256 struct{}
+
+func (SSHA256) GenerateHash(pw string) (string, error) {
+	salt := make([]byte, 8)
+	if _, err := crand.Read(salt); err != nil {
+		return "", err
+	}
+	sum := sha256.Sum256(append(append([]byte(nil), salt...), pw...))
+	return fmt.Sprintf("$ssha256$%x$%x", salt, sum), nil
+}
+
+func (SSHA256) CompareHashAndPassword(hash, pw string) error {
+	if !VerifySSHA256(hash, pw) {
+		return fmt.Errorf("ssha256: hash and password do not match")
+	}
+	return nil
+}
+
+// VerifySSHA256 recomputes the digest (used by the monitors as well).
+func VerifySSHA256(hash, pw string) bool {
+	parts := strings.Split(hash, "$")
+	if len(parts) != 4 || parts[1] != "ssha256" {
+		return false
+	}
+	var salt []byte
+	if _, err := fmt.Sscanf(parts[2], "%x", &salt); err != nil {
+		return false
+	}
+	sum := sha256.Sum256(append(append([]byte(nil), salt...), pw...))
+	return fmt.Sprintf("%x", sum) == parts[3]
+}
+
 // untranslated is a Localizer without a translation for anything the visitor's language needs.
 type untranslated struct{}
 
@@ -643,6 +688,10 @@ func (p providerRT) RoundTrip(r *http.Request) (*http.Response, error) {
 			return nil, fmt.Errorf("provider refused details")
 		}
 		b, _ := json.Marshal(map[string]string{"id": id.UID, "email": id.Email, "name": "N " + id.UID})
+		if p.w.Cfg.NumericIDs && len(id.UID) > 0 && strings.Trim(id.UID, "0123456789") == "" && id.UID[0] != '0' {
+			// a provider that encodes numeric ids as JSON numbers (digits kept exactly, as JSON allows)
+			b = []byte(fmt.Sprintf(`{"id": %s, "email": %q, "name": %q}`, id.UID, id.Email, "N "+id.UID))
+		}
 		return &http.Response{StatusCode: 200, Status: "200", Header: http.Header{"Content-Type": []string{"application/json"}},
 			Body: io.NopCloser(bytes.NewReader(b)), Request: r, ProtoMajor: 1, ProtoMinor: 1}, nil
 	}
@@ -676,6 +725,9 @@ func (w *World) seedAccounts() {
 			SecondaryEmails: append([]string(nil), a.Secondary...), SMSSeed: a.PhoneSeed}
 		if u.Email == "" {
 			u.Email = a.PID
+		}
+		if w.Cfg.CustomHasher {
+			u.Password, _ = SSHA256{}.GenerateHash(a.Password)
 		}
 		switch a.HashKind {
 		case "empty": // created through OAuth2 / invited: no password at all
@@ -757,6 +809,9 @@ func (w *World) buildHandler() {
 		"/p/full2fa": authboss.Middleware2(ab, authboss.RequireFullAuth|authboss.Require2FA, resp)(probe("full2fa")),
 		"/p/lock":    authboss.Middleware2(ab, authboss.RequireNone, resp)(lock.Middleware(ab)(probe("lock"))),
 		"/p/confirm": authboss.Middleware2(ab, authboss.RequireNone, resp)(confirm.Middleware(ab)(probe("confirm"))),
+		// the same two middlewares as the first thing that looks the user up (the access middleware behind them)
+		"/q/lock":    lock.Middleware(ab)(authboss.Middleware2(ab, authboss.RequireNone, resp)(probe("lock"))),
+		"/q/confirm": confirm.Middleware(ab)(authboss.Middleware2(ab, authboss.RequireNone, resp)(probe("confirm"))),
 		"/set": http.HandlerFunc(func(rw http.ResponseWriter, r *http.Request) {
 			k, v := r.URL.Query().Get("k"), r.URL.Query().Get("v")
 			for _, ak := range AppKeys {
@@ -867,7 +922,7 @@ var AllSessionKeys = []string{
 	totp2fa.SessionTOTPSecret, totp2fa.SessionTOTPPendingPID,
 	sms2fa.SessionSMSNumber, sms2fa.SessionSMSSecret, "sms_secret_number", sms2fa.SessionSMSLast, sms2fa.SessionSMSPendingPID,
 	"twofactor_auth_pid", // authboss.Session2FAAuthPID (literal: trees without the D15 fix lack the constant)
-	"app_theme", "app_cart", "app_lang", "visitor_uuid", "twofactor_hint",
+	"app_theme", "app_cart", "app_lang", "visitor_uuid", "twofactor_hint", "app:locale", "shop/currency", "sprache_für_ui",
 }
 
 // Req is one client request.
